@@ -17,7 +17,7 @@ func init() {
 	Registry["C14"] = Spec{
 		Fn:          c14,
 		Level:       "exploration",
-		Rule:        "operation histories over the alphabet {append 1 B, append forcing reallocation, append 0 B, ChainWrite(empty), ChainWrite(3 B), Flush ok, Flush failing after 0 / half / all-1 bytes} enumerated exhaustively up to length 6 (quick) / 8 (thorough), plus seeded random histories up to 200 ops with sizes up to 1 MiB, each run in lock-step with a list model against a recording sink; chained caller slices are poisoned after every flush; plus WriteColumn+Flush == EncodeColumn for every catalogue column. Non-trivial = history with >=1 ChainWrite between two buffer appends and >=1 flush; distinct = history",
+		Rule:        "operation histories over the alphabet {append 1 B, append forcing reallocation, append 0 B, ChainWrite(empty), ChainWrite(3 B), Flush ok, Flush failing after 0 / half / all-1 bytes} enumerated exhaustively up to length 6 (quick) / 8 (thorough), plus seeded random histories up to 200 ops with sizes up to 1 MiB, each run in lock-step with a list model against a recording sink; chained caller slices are poisoned after every flush; plus WriteColumn+Flush == EncodeColumn for every catalogue column and WriteBlock+Flush == EncodeBlock for catalogue and random-composition blocks of 0 (with columns), 1, 3, 9 and 130 rows at every block revision. Non-trivial = history with >=1 ChainWrite between two buffer appends and >=1 flush; distinct = history",
 		Assumptions: []string{"sink writers are plain io.Writers (net.Buffers.WriteTo falls back to sequential Write calls)"},
 		MinDistinct: 1000,
 		Exhaustive:  func(tier string) bool { return true },
@@ -288,6 +288,21 @@ func c14(r *core.Run) {
 				if _, err := w.Flush(); err != nil {
 					panic(err)
 				}
+				// the writer's buffer already holds bytes when the writer is created, and receives
+				// bytes directly between two columns
+				sink2 := &recSink{limit: -1}
+				pb := &proto.Buffer{Buf: append([]byte(nil), prefix...)}
+				w2 := proto.NewWriter(sink2, pb)
+				col.WriteColumn(w2)
+				pb.Buf = append(pb.Buf, 0xC1, 0xC2)
+				col.WriteColumn(w2)
+				if _, err := w2.Flush(); err != nil {
+					panic(err)
+				}
+				want2 := append(append(append([]byte(nil), b.Buf...), 0xC1, 0xC2), b.Buf[len(prefix):]...)
+				if !bytes.Equal(sink2.got, want2) {
+					r.Violation("WriteColumn-differs:prefilled-buffer:"+typeSite(t), fmt.Sprintf("%s (%s), %d rows: writer over a pre-filled buffer wrote %d bytes, expected %d, first difference at %d", e.Type, e.Kind, rows, len(sink2.got), len(want2), firstDiff(sink2.got, want2)), cs)
+				}
 				if !bytes.Equal(sink.got, b.Buf) {
 					r.Violation("WriteColumn-differs:"+typeSite(t), fmt.Sprintf("%s (%s), %d rows: WriteColumn+Flush wrote %d bytes, EncodeColumn %d, first difference at %d", e.Type, e.Kind, rows, len(sink.got), len(b.Buf), firstDiff(sink.got, b.Buf)), cs)
 				}
@@ -297,6 +312,68 @@ func c14(r *core.Run) {
 			}); p != "" {
 				r.Violation("WriteColumn-panic:"+typeSite(t), p, cs)
 			}
+		}
+	}
+	// path equivalence for whole blocks: WriteBlock+Flush == EncodeBlock, for the blocks of C01
+	// (catalogue + random compositions, 0 rows with columns included, every block revision)
+	nb := r.Pick(1200, 30000)
+	for k := 0; k < nb; k++ {
+		ci++
+		if !r.Take(ci) {
+			continue
+		}
+		rng := r.Rand(ci, "blk")
+		sel := k % (len(val.Catalogue) + 60)
+		rows := []int{0, 0, 1, 3, 9, 130}[rng.Intn(6)]
+		rev := val.BlockRevisions[rng.Intn(len(val.BlockRevisions))]
+		bc, err := genBlockCase(r, ci, sel, rows, rev, val.GenOpt{MaxElem: 3})
+		if err != nil {
+			continue
+		}
+		r.Eval()
+		if p := core.Recover(func() {
+			src, err := bc.Mk()
+			if err != nil {
+				panic(err)
+			}
+			for _, v := range bc.Vals {
+				src.Append(v)
+			}
+			idxCol := new(proto.ColUInt32)
+			for i := 0; i < rows; i++ {
+				idxCol.Append(uint32(i))
+			}
+			input := []proto.InputColumn{{Name: "v", Data: src.Col()}, {Name: "i", Data: idxCol}}
+			switch bc.Order {
+			case 1:
+				input[0], input[1] = input[1], input[0]
+			case 2:
+				input = input[:1]
+			}
+			blk := proto.Block{Columns: len(input), Rows: rows, Info: proto.BlockInfo{BucketNum: -1}}
+			sink := &recSink{limit: -1}
+			w := proto.NewWriter(sink, new(proto.Buffer))
+			prefix := make([]byte, rng.Intn(9))
+			rng.Read(prefix)
+			w.ChainBuffer(func(buf *proto.Buffer) { buf.PutRaw(prefix) })
+			if err := blk.WriteBlock(w, rev, input); err != nil {
+				panic(err)
+			}
+			if _, err := w.Flush(); err != nil {
+				panic(err)
+			}
+			want := append(append([]byte(nil), prefix...), bc.Bytes...)
+			if !bytes.Equal(sink.got, want) {
+				cls := "rows>0"
+				if rows == 0 {
+					cls = "zero-rows"
+				}
+				r.Violation("WriteBlock-differs:"+cls+":"+typeSite(bc.T), fmt.Sprintf("%s (%s), %d rows, rev %d: WriteBlock+Flush wrote %d bytes, EncodeBlock %d, first difference at %d", bc.TS, bc.Kind, rows, rev, len(sink.got)-len(prefix), len(bc.Bytes), firstDiff(sink.got, want)-len(prefix)), bc.Desc())
+			}
+			r.NonTrivial("blk", bc.TS, rows, rev, bc.Order)
+			r.SetAdd("block_rows", fmt.Sprint(rows))
+		}); p != "" {
+			r.Violation("WriteBlock-panic:"+typeSite(bc.T), p, bc.Desc())
 		}
 	}
 	_ = rand.Int
